@@ -6,6 +6,11 @@ import LWV.Spec.Security
 import LWV.Model.Tags
 import LWV.Spec.TagsRef
 import LWV.Model.Crc
+import LWV.Model.Radiotap
+import LWV.Spec.Radiotap
+import LWV.Model.Frames
+import LWV.Spec.Frames
+import LWV.Model.Misc
 /-
 Line-protocol driver: runs the executable Model (and Spec) on the same operation lines the C
 harness runs.  Compiled as `lwdriver` (nothing below imports Mathlib).
@@ -124,6 +129,166 @@ def hex8 (v : Nat) : String := toHex [UInt8.ofNat (v / 16777216), UInt8.ofNat (v
 def showCrc (c : Reg) (fcs : Bytes) (verify : Nat) : String :=
   s!"crc={hex8 c.toNat} fcs={toHex fcs} verify={verify} ref={hex8 c.toNat}"
 
+def showAnts (l : List (Nat × Nat)) : String :=
+  if l.isEmpty then "-" else ",".intercalate (l.map fun (n, s) => s!"{n}:{s}")
+
+def showRtInfo (i : Model.RtInfo) : String :=
+  s!"len={i.length} freq={i.chanFreq} cfl={i.chanFlags} center={i.chanCenter} band={i.chanBand} rate={i.rateRaw} sig={i.signal} nant={i.antennaCount} ants={showAnts (i.antennas.take i.antennaCount)} flags={i.flags} rx={i.rxFlags} tx={i.txFlags} mcs={i.mcsKnown}/{i.mcsFlags}/{i.mcsMcs} txp={i.txPower} ts={i.tsTimestamp}/{i.tsAccuracy}/{i.tsUnit}/{i.tsFlags} rts={i.rtsRetries} data={i.dataRetries}"
+
+def showRtValues (v : Spec.RtValues) : String :=
+  s!"len={v.length} freq={v.chanFreq} cfl={v.chanFlags} center={v.chanCenter} band={v.chanBand} rate={v.rateRaw} sig={v.signal} nant={v.antennas.length} ants={showAnts v.antennas} flags={v.flags} rx={v.rxFlags} tx={v.txFlags} mcs={v.mcs.1}/{v.mcs.2.1}/{v.mcs.2.2} txp={v.txPower} ts={v.ts.1}/{v.ts.2.1}/{v.ts.2.2.1}/{v.ts.2.2.2} rts={v.rtsRetries} data={v.dataRetries}"
+
+def specRtp (bs : Bytes) : String :=
+  match Spec.rtFields bs with
+  | none => "refuse"
+  | some (itLen, fields) => "ok " ++ showRtValues (Spec.rtValues bs itLen fields 16)
+
+def parseKV (s : String) : List (String × Nat) :=
+  (s.splitOn ",").filterMap fun kv => match kv.splitOn "=" with
+    | [k, v] => (parseNat v).map fun n => (k, n)
+    | _ => none
+
+def rtGenOf (kv : List (String × Nat)) : Model.RtGen :=
+  let g (k : String) (m : Nat) : Nat := ((kv.lookup k).getD 0) % m
+  { present := g "present" (2^32), chanFreq := g "freq" 65536, chanFlags := g "cfl" 65536, rateRaw := g "rate" 256, signal := g "sig" 256,
+    antennaCount := g "nant" 256, ant0Number := g "a0n" 256, ant0Signal := g "a0s" 256, flags := g "flags" 256, rxFlags := g "rx" 65536,
+    txFlags := g "tx" 65536, mcsKnown := g "mk" 256, mcsFlags := g "mf" 256, mcsMcs := g "mm" 256, txPower := g "txp" 256,
+    tsTimestamp := g "ts" (2^64), tsAccuracy := g "tsa" 65536, tsUnit := g "tsu" 256, tsFlags := g "tsf" 256, rtsRetries := g "rts" 256, dataRetries := g "data" 256 }
+
+def rtDescOf (g : Model.RtGen) : Spec.RtDesc :=
+  { present := g.present, value := fun f => Model.rtGenField g f }
+
+/-- what a decode of the generated header must return: the supplied value of every selected field -/
+def rtBackOf (g : Model.RtGen) (len : Nat) : String :=
+  let p (b : Nat) (v : Nat) : Nat := if g.present.testBit b then v else 0
+  let bc := Spec.channelOf (p 3 g.chanFreq)
+  s!"len={len} freq={p 3 g.chanFreq} cfl={p 3 g.chanFlags} center={bc.2 % 256} band={bc.1} rate={p 2 g.rateRaw} sig={p 5 g.signal} nant=0 ants=- flags={p 1 g.flags} rx={p 14 g.rxFlags} tx={p 15 g.txFlags} mcs={p 19 g.mcsKnown}/{p 19 g.mcsFlags}/{p 19 g.mcsMcs} txp={p 10 g.txPower} ts={p 22 g.tsTimestamp}/{p 22 g.tsAccuracy}/{p 22 g.tsUnit}/{p 22 g.tsFlags} rts={p 16 g.rtsRetries} data={p 17 g.dataRetries}"
+
+/-! generator ops -/
+
+def kvOf (toks : List String) : List (String × String) :=
+  toks.filterMap fun t => match t.splitOn "=" with
+    | [k, v] => some (k, v)
+    | _ => none
+
+def kvHex (kv : List (String × String)) (k : String) : Bytes := ((kv.lookup k).bind ofHex).getD []
+def kvNat (kv : List (String × String)) (k : String) : Nat := ((kv.lookup k).bind parseNat).getD 0
+
+def gkindOf : String → Option (Model.GKind × Spec.Kind)
+  | "beacon" => some (.beacon, .beacon) | "probe_req" => some (.probeReq, .probeReq) | "probe_resp" => some (.probeResp, .probeResp)
+  | "assoc_req" => some (.assocReq, .assocReq) | "assoc_resp" => some (.assocResp, .assocResp)
+  | "reassoc_req" => some (.reassocReq, .reassocReq) | "reassoc_resp" => some (.reassocResp, .reassocResp)
+  | "auth" => some (.auth, .auth) | "deauth" => some (.deauth, .deauth) | "disassoc" => some (.disassoc, .disassoc)
+  | "action" => some (.action, .action) | "action_noack" => some (.actionNoAck, .actionNoAck) | "timing_ad" => some (.timingAd, .timingAd)
+  | "atim" => some (.atim, .atim) | "rts" => some (.rts, .rts) | "cts" => some (.cts, .cts)
+  | _ => none
+
+def pad (b : Bytes) (n : Nat) : Bytes := (b ++ List.replicate n 0).take n
+
+def gargsOf (kv : List (String × String)) : Model.GArgs :=
+  let clk := ((kv.lookup "clk").getD "0:0").splitOn ":"
+  { a1 := pad (kvHex kv "a1") 6, a2 := pad (kvHex kv "a2") 6, a3 := pad (kvHex kv "a3") 6, ap := pad (kvHex kv "ap") 6,
+    ssid := kvHex kv "ssid", ch := kvNat kv "ch" % 256, alg := kvNat kv "alg" % 65536, seq := kvNat kv "seq" % 65536,
+    status := kvNat kv "status" % 65536, reason := kvNat kv "reason" % 65536, cat := kvNat kv "cat" % 256, dur := kvNat kv "dur" % 65536,
+    cap := kvNat kv "cap" % 256, tv := pad (kvHex kv "tv") 10, te := pad (kvHex kv "te") 5, tu := pad (kvHex kv "tu") 1,
+    country := pad (kvHex kv "country") 3, mrp := kvNat kv "mrp" % 65536, mtx := kvNat kv "mtx" % 256, txu := kvNat kv "txu" % 256,
+    nf := kvNat kv "nf" % 256,
+    clk := ⟨(clk.getD 0 "0").toNat?.getD 0, (clk.getD 1 "0").toNat?.getD 0⟩ }
+
+def parseGEdit (s : String) : Option Model.GEdit :=
+  match s.splitOn ":" with
+  | ["d", h] => (ofHex h).map .detail
+  | _ => (parseTagOp s).map .tag
+
+/-- is the edit applicable to the kind (mirrors the harness, which answers -7777 otherwise) -/
+def editApplies (k : Model.GKind) (e : Model.GEdit) (o : Model.GObj) : Bool :=
+  match e with
+  | .detail _ => k == .action || k == .actionNoAck
+  | .tag (.setSsid _) => k == .beacon || k == .probeResp
+  | .tag (.setChannel _) => k == .beacon || k == .probeResp || k == .assocResp || k == .reassocResp
+  | .tag (.check _) => false
+  | .tag _ => o.hasTags
+
+def runGen (k : Model.GKind) (a : Model.GArgs) (edits : List Model.GEdit) (bufLen : Option Nat) : String :=
+  match Model.create k a with
+  | .ok (r, o0) => Id.run do
+    let mut o := o0
+    let mut er : Int := 0
+    for e in edits do
+      if editApplies k e o then
+        match o.edit e with
+        | .ok (r', o') => o := o'; er := r'
+        | .err c => er := c
+        | .fault f => return s!"FAULT {repr f}"
+      else er := -7777
+    let len := o.length
+    let buf := List.replicate (bufLen.getD len) (0xA5 : UInt8)
+    match Model.dumpInto o buf with
+    | .ok (d, after) =>
+      if d < 0 then s!"ret={r} edit={er} len={len} dump=err touched={if after == buf then 0 else 1}"
+      else
+        let n := d.toNat
+        s!"ret={r} edit={er} len={len} dump={n}/{toHex (after.take n)} touched={if after.drop n == buf.drop n then 0 else 1}"
+    | .err c => s!"err {c}"
+    | .fault f => s!"FAULT {repr f}"
+  | .err c => s!"err {c}"
+  | .fault f => s!"FAULT {repr f}"
+
+def specArgsOf (a : Model.GArgs) : Spec.Args :=
+  { a1 := a.a1, a2 := a.a2, a3 := a.a3, ap := a.ap, ssid := Model.cstr a.ssid, ch := a.ch, alg := a.alg, seq := a.seq, status := a.status,
+    reason := a.reason, cat := a.cat, dur := a.dur,
+    timingElem := [UInt8.ofNat a.cap] ++ (if a.cap = 1 then a.tv ++ a.te else if a.cap = 2 then a.tv ++ a.te ++ a.tu else []),
+    country := a.country, mrp := a.mrp, mtx := a.mtx, txu := a.txu, nf := a.nf, sec := a.clk.sec, nsec := a.clk.nsec }
+
+/-- the property's expectation for a gen line, or "any" where the property fixes nothing -/
+def specGen (mk : Model.GKind) (k : Spec.Kind) (a : Model.GArgs) (edits : List Model.GEdit) (bufLen : Option Nat) : String := Id.run do
+  let sa := specArgsOf a
+  if sa.ssid.length > 255 then return "any"
+  let mut elems := Spec.initialElems k sa
+  let mut details : Bytes := []
+  let mut er : Int := 0
+  let o0 : Model.GObj := { kind := mk, fc := [], a1 := [], a2 := [], a3 := [] }
+  for e in edits do
+    if !editApplies mk e o0 then return "any"
+    match e with
+    | .detail d =>
+      details := details ++ d
+      if details.length > 255 then return "any"
+      er := details.length
+    | .tag op =>
+      match Spec.refEdit elems (toEditOp op) with
+      | some es =>
+        elems := es
+        er := match op with
+          | .remove _ => -999999       -- the return value of a removal is not fixed by the property
+          | _ => 0
+      | none => return "any"
+  let enc := Spec.frame k sa elems details
+  let shown := s!"ret=0 edit={if edits.isEmpty then "0" else if er == -999999 then "*" else toString er} len={enc.length}"
+  match bufLen with
+  | some n => if n < enc.length then return shown ++ " dump=err touched=0" else return shown ++ s!" dump={enc.length}/{toHex enc} touched=0"
+  | none => return shown ++ s!" dump={enc.length}/{toHex enc} touched=0"
+
+def rtgMax : Model.RtGen :=
+  { present := 0, chanFreq := 65535, chanFlags := 65535, rateRaw := 255, signal := 255, antennaCount := 16,
+    ant0Number := 255, ant0Signal := 255, flags := 255, rxFlags := 65535, txFlags := 65535, mcsKnown := 255, mcsFlags := 255, mcsMcs := 255,
+    txPower := 255, tsTimestamp := 2^64 - 1, tsAccuracy := 65535, tsUnit := 255, tsFlags := 255, rtsRetries := 255, dataRetries := 255 }
+
+def rtgRange (lo hi : Nat) : String := Id.run do
+  let mut h : UInt64 := 1469598103934665603
+  let mut maxlen := 0
+  for m in [lo:hi] do
+    match Model.createRadiotap { rtgMax with present := m } with
+    | .ok hdr =>
+      if hdr.length > maxlen then maxlen := hdr.length
+      h := fnvStep h (UInt64.ofNat (hdr.length % 256))
+    | _ => return "FAULT"
+  return s!"maxlen={maxlen} digest={h}"
+
+/-- random source of the harness: mode 1 delivers `rnd`, mode 2 at most `rnd.length` octets, mode 3 fails -/
+def randomMac (pfx : Option Bytes) (mode : Nat) (rnd : Bytes) : Bytes :=
+  Model.randomMac pfx (if mode == 3 then [] else rnd)
+
 def step (line : String) : String :=
   match line.trimAscii.toString.splitOn " " with
   | ["tagname", v] =>
@@ -176,6 +341,67 @@ def step (line : String) : String :=
       let sv := if 4 ≤ bs.length ∧ bs.drop (bs.length - 4) = Spec.fcsOctets (bs.take (bs.length - 4)) then 1 else 0
       m ++ " ;; spec=" ++ showCrc sc (Spec.fcsOctets bs) sv
     | none => "bad-op"
+  | ["rtp", h] =>
+    match ofHex h with
+    | some bs => showOutcome (fun i => "ok " ++ showRtInfo i) (Model.parseRadiotapInfo bs) ++ " ;; spec=" ++ specRtp bs
+    | none => "bad-op"
+  | ["rtg", kvs] =>
+    let g := rtGenOf (parseKV kvs)
+    match Model.createRadiotap g with
+    | .ok hdr =>
+      let back := match Model.parseRadiotapInfo hdr with
+        | .ok i => showRtInfo i
+        | .err c => s!"err{c}"
+        | .fault f => s!"FAULT {repr f}"
+      let sp := if g.present &&& (2^32 - 1 - Spec.carriedMask) == 0 then
+          let e := Spec.rtEncode (rtDescOf g)
+          s!"len={e.length} hdr={toHex e} back={rtBackOf g e.length}"
+        else "any"
+      s!"len={hdr.length} hdr={toHex hdr} back={back} ;; spec={sp}"
+    | .err c => s!"err {c} ;; spec=any"
+    | .fault f => s!"FAULT {repr f} ;; spec=any"
+  | "gen" :: kind :: rest =>
+    match gkindOf kind with
+    | some (mk, sk) =>
+      let kv := kvOf rest
+      let a := gargsOf kv
+      let ops := (kv.lookup "ops").getD "-"
+      let edits := if ops == "-" then some [] else (ops.splitOn ",").mapM parseGEdit
+      let bufLen := (kv.lookup "buf").bind parseNat
+      match edits with
+      | some edits => runGen mk a edits bufLen ++ " ;; spec=" ++ specGen mk sk a edits bufLen
+      | none => "bad-op"
+    | none => "bad-op"
+  | ["rtgrange", lo, hi] =>
+    match parseNat lo, parseNat hi with
+    | some lo, some hi => rtgRange lo hi ++ s!" ;; spec=any"
+    | _, _ => "bad-op"
+  | "rmac" :: rest =>
+    let kv := kvOf rest
+    let pfx := match kv.lookup "pfx" with
+      | some "none" | none => none
+      | some h => ofHex h
+    let m := randomMac pfx (kvNat kv "mode") (kvHex kv "rnd")
+    let sp := match pfx with
+      | some p => s!"prefix {toHex (pad p 3)}"
+      | none => "six"
+    s!"mac={toHex m} calls=1 ;; spec={sp}"
+  | ["tagdump", num, h, blen] =>
+    match num.toNat?, ofHex h, blen.toNat? with
+    | some num, some d, some blen =>
+      let tag := Model.createTag num d
+      let buf := List.replicate blen (0xA5 : UInt8)
+      let enc : Bytes := tag.num :: tag.len :: d.take tag.len.toNat
+      let sp := if blen < enc.length then s!"create={2 + d.length} dump=err touched=0"
+                else s!"create={2 + d.length} dump={enc.length}/{toHex enc} touched=0"
+      let m := match Model.dumpTag tag buf with
+        | .ok (r, after) =>
+          if r < 0 then s!"create={2 + d.length} dump=err touched={if after == buf then 0 else 1}"
+          else s!"create={2 + d.length} dump={r}/{toHex (after.take r.toNat)} touched={if after.drop r.toNat == buf.drop r.toNat then 0 else 1}"
+        | .err c => s!"err {c}"
+        | .fault f => s!"FAULT {repr f}"
+      m ++ " ;; spec=" ++ sp
+    | _, _, _ => "bad-op"
   | ["spec-ieee", kind] =>
     match specKinds.lookup kind with
     | some t => dumpTable t
